@@ -185,7 +185,7 @@ def copies_forward(b, local):
     while grew:
         grew = False
         for bi, si, s in b.iter_stmts():
-            if s["rv"]["k"] == "use" and not s["d"].get("p") and op_local(s["rv"]["op"]) in out and not op_place(s["rv"]["op"]).get("p") and s["d"]["l"] not in out:
+            if s["rv"]["k"] in ("use", "cast") and not s["d"].get("p") and op_local(s["rv"]["op"]) in out and not op_place(s["rv"]["op"]).get("p") and s["d"]["l"] not in out:
                 out.add(s["d"]["l"])
                 grew = True
     return out
